@@ -133,11 +133,17 @@ func canonV(v reflect.Value, m Mode, singleItemPos bool) *Node {
 		n := &Node{Kind: "nlv"}
 		for i := 0; i < v.Len(); i++ {
 			e := v.Index(i).Interface().(vocab.LangRefValue)
-			ref := string(e.Ref)
-			if m == JSON && v.Len() == 1 {
-				ref = string(vocab.NilLangRef)
+			if m == JSON && len(e.Value) == 0 {
+				continue // JSON mode: an entry without a text says nothing in a document
 			}
-			n.List = append(n.List, &Node{Kind: "lv", S: ref + "\x00" + string(e.Value)})
+			n.List = append(n.List, &Node{Kind: "lv", S: string(e.Ref) + "\x00" + string(e.Value)})
+		}
+		if m == JSON && len(n.List) == 0 {
+			return nil
+		}
+		if m == JSON && len(n.List) == 1 {
+			// a lone text: its tag does not count
+			n.List[0].S = string(vocab.NilLangRef) + "\x00" + strings.SplitN(n.List[0].S, "\x00", 2)[1]
 		}
 		return n
 	case t == IcT:
